@@ -11,7 +11,7 @@
    Claimed as PARTIAL.  Proved here, about executable models tied to the code on every run:
    - attribution, for every program of the mini language of Interp/Frames.v (statements and expression nodes with line
      numbers, user-function calls through plain calls / methods / comprehension elements / decorator wrappers / decorator
-     application / functions of imported modules, module import, try statements that pass on, swallow or chain an
+     application / functions of imported modules / natively compiled script functions and lambdas (as given frames), module import, try statements that pass on, swallow or chain an
      exception, raise..from), any call depth, any nesting, any length of the cause chain;
    - containment, for every entry point of both subsystems, every outcome of the user code, every history.
    Missing for the full statement: the chain of interpreter frames is an abstraction of CPython frame objects (f_locals,
@@ -97,6 +97,13 @@ Theorem C18_attribution_refuted_D187 :
   reference_triples w187 50%nat (EnFunc 0%nat 99 false) = RRaise [[(1, FnNamed 11, 9); (3, FnModule 3, 3)]].
 Proof. exact refuted_D187. Qed.
 Print Assumptions C18_attribution_refuted_D187.
+
+Theorem C18_attribution_refuted_D190 :
+  wf_prog w190 = true /\
+  reported only_lambda w190 50%nat (EnFunc 0%nat 99 false) = RRaise [[(1, FnNamed 11, 5); (1, FnNamed 31, 2)]] /\
+  reference_triples w190 50%nat (EnFunc 0%nat 99 false) = RRaise [[(1, FnNamed 11, 5); (1, FnNamed 30, 2)]].
+Proof. exact refuted_D190. Qed.
+Print Assumptions C18_attribution_refuted_D190.
 
 (* whatever behaviour of the implementation the conformant Model reproduces (both the report and CPython's traceback)
    satisfies the Spec the correspondence applies *)
